@@ -172,6 +172,9 @@ def apply_section(evs, s, handle_side):
             elif lab == 'cap_max':
                 if (s.cap == INF) != (out == 'T'):
                     raise Infeasible()
+            elif lab == 'cap0':
+                if (s.cap == 0) != (out == 'T'):
+                    raise Infeasible()
             elif lab == 'cancel':
                 kind = pend.get('cancel')
                 if kind is None:
